@@ -64,8 +64,26 @@ type ScalarCase struct {
 	// builder API (map, url, rm carriers without per-call functions): the rule map is handed to SetRule
 	// while still empty and filled afterwards, before Valid (a rule map is a Go map: the validator sees it live)
 	LateRule bool `json:"laterule,omitempty"`
-	noDup    bool
+	// Key: map / url carriers: the name of our entry ("" = scalarKey).  Names that look like other
+	// names with something appended or removed ("ids[]", "k.x") are names of their own.
+	Key string `json:"key,omitempty"`
+	// Near: a further entry / parameter no rule mentions, named like ours but for a suffix or the case
+	Near  string `json:"near,omitempty"`
+	noDup bool
 }
+
+// k is the name of our map entry / URL parameter.
+func (c *ScalarCase) k() string {
+	if c.Key != "" {
+		return c.Key
+	}
+	return scalarKey
+}
+
+// scalarKeys: names for our entry other than the plain one, each with a name an implementation that
+// "normalises" parameter names would confuse it with (that one is added as an unrelated entry).
+var scalarKeys = [][2]string{{"ids[]", "ids"}, {"ids", "ids[]"}, {"k[0]", "k"}, {"k.x", "k"}, {"K", "k"}, {"k", "K"}, {"kk", "k"},
+	{"user_id", "userid"}, {"user-id", "user_id"}, {"用户", "用"}, {"k[]", "k"}, {"id", "ID"}, {"a[b]", "a"}, {"k1", "k"}}
 
 func (c *ScalarCase) callFn(name string) bool {
 	for _, n := range c.CallFns {
@@ -150,11 +168,11 @@ func (c *ScalarCase) path() string {
 		}
 		return "K"
 	case "map", "mapiface":
-		return "map[" + scalarKey + "]"
+		return "map[" + c.k() + "]"
 	case "listmap":
-		return "[0]map[" + scalarKey + "]" // (and the same clauses again for [1]: the list holds the map twice)
+		return "[0]map[" + c.k() + "]" // (and the same clauses again for [1]: the list holds the map twice)
 	}
-	return scalarKey
+	return c.k()
 }
 
 // leadFields: the rule-less fields declared before ours in the carrier struct.
@@ -208,6 +226,7 @@ func (c *ScalarCase) value() reflect.Value { return desc.Build(desc.Type(c.T), c
 func (c *ScalarCase) prepare() func() error {
 	v := c.value()
 	rules := c.rules()
+	key := c.k()
 	switch c.Carrier {
 	case "var":
 		src := c.viaPtr(v)
@@ -302,7 +321,7 @@ func (c *ScalarCase) prepare() func() error {
 		}
 		m := reflect.MakeMap(reflect.MapOf(reflect.TypeOf(""), et))
 		if !c.Missing {
-			m.SetMapIndex(reflect.ValueOf(scalarKey), v)
+			m.SetMapIndex(reflect.ValueOf(key), v)
 		}
 		for _, o := range c.Others {
 			if c.Carrier == "mapiface" {
@@ -313,13 +332,23 @@ func (c *ScalarCase) prepare() func() error {
 				m.SetMapIndex(reflect.ValueOf(o[0]), reflect.Zero(et))
 			}
 		}
+		if c.Near != "" {
+			if c.Carrier == "mapiface" {
+				m.SetMapIndex(reflect.ValueOf(c.Near), reflect.ValueOf("zz"))
+			} else {
+				m.SetMapIndex(reflect.ValueOf(c.Near), v)
+			}
+		}
 		src := c.viaPtr(m)
 		if c.Carrier == "listmap" && len(c.ListMissing) > 0 {
 			l := reflect.MakeSlice(reflect.SliceOf(m.Type()), len(c.ListMissing), len(c.ListMissing))
 			for i, miss := range c.ListMissing {
 				mi := reflect.MakeMap(m.Type())
 				if !miss {
-					mi.SetMapIndex(reflect.ValueOf(scalarKey), v)
+					mi.SetMapIndex(reflect.ValueOf(key), v)
+				}
+				if c.Near != "" {
+					mi.SetMapIndex(reflect.ValueOf(c.Near), v)
 				}
 				l.Index(i).Set(mi)
 			}
@@ -337,19 +366,19 @@ func (c *ScalarCase) prepare() func() error {
 				for _, n := range fns {
 					fm[n] = perCallFn(n)
 				}
-				return valid.MapFn(src, valid.RM{scalarKey: rules}, fm)
+				return valid.MapFn(src, valid.RM{key: rules}, fm)
 			}
 		}
 		if c.LateRule {
 			return func() error {
 				rm := valid.RM{"zz": "required"} // (SetRule of an empty map is "no rules": a placeholder entry, removed again)
 				vm := valid.NewVMap().SetRule(rm)
-				rm[scalarKey] = rules
+				rm[key] = rules
 				delete(rm, "zz")
 				return vm.Valid(src)
 			}
 		}
-		return func() error { return valid.Map(src, valid.RM{scalarKey: rules}) }
+		return func() error { return valid.Map(src, valid.RM{key: rules}) }
 	case "url", "urlenc":
 		var params []string
 		for _, o := range c.Others {
@@ -365,12 +394,12 @@ func (c *ScalarCase) prepare() func() error {
 		if !c.Missing {
 			var ours []string
 			for _, a := range c.Again {
-				ours = append(ours, scalarKey+"="+a)
+				ours = append(ours, key+"="+a)
 			}
 			if c.Bare && v.String() == "" {
-				ours = append(ours, scalarKey) // written bare, without '=': an empty value all the same
+				ours = append(ours, key) // written bare, without '=': an empty value all the same
 			} else {
-				ours = append(ours, scalarKey+"="+v.String())
+				ours = append(ours, key+"="+v.String())
 			}
 			if c.Plus && c.Carrier == "url" {
 				for i := range ours {
@@ -382,6 +411,9 @@ func (c *ScalarCase) prepare() func() error {
 				pos = len(params)
 			}
 			params = append(params[:pos], append(ours, params[pos:]...)...)
+		}
+		if c.Near != "" {
+			params = append(params, c.Near+"=zz")
 		}
 		u := "http://test.com/a/b"
 		if len(params) > 0 {
@@ -397,7 +429,7 @@ func (c *ScalarCase) prepare() func() error {
 		if len(c.CallFns) > 0 {
 			fns := append([]string(nil), c.CallFns...)
 			return func() error {
-				vu := valid.NewVUrl().SetRule(valid.RM{scalarKey: rules})
+				vu := valid.NewVUrl().SetRule(valid.RM{key: rules})
 				for _, n := range fns {
 					vu.SetValidFn(n, perCallFn(n))
 				}
@@ -408,11 +440,11 @@ func (c *ScalarCase) prepare() func() error {
 			return func() error {
 				rm := valid.NewRule()
 				vu := valid.NewVUrl().SetRule(rm)
-				rm[scalarKey] = rules
+				rm[key] = rules
 				return vu.Valid(usrc)
 			}
 		}
-		return func() error { return valid.Url(usrc, valid.RM{scalarKey: rules}) }
+		return func() error { return valid.Url(usrc, valid.RM{key: rules}) }
 	}
 	panic("bad carrier " + c.Carrier)
 }
